@@ -152,10 +152,17 @@ func (sp lcSpec) allowed() []string {
 	return nil
 }
 
+// lcPanic is what the harness records when Connect itself panicked.
+type lcPanic struct{ msg string }
+
+func (p lcPanic) Error() string { return "panic in Connect: " + p.msg }
+
 func lcClass(err error) string {
 	switch e := err.(type) {
 	case nil:
 		return "nil"
+	case lcPanic:
+		return "panic"
 	case *girc.ErrEvent:
 		return "errevent=" + Hex(e.Error())
 	case girc.ErrParseEvent:
@@ -173,6 +180,8 @@ func lcRetToken(err error) string {
 	switch e := err.(type) {
 	case nil:
 		return "Rn"
+	case lcPanic:
+		return "R!" // not a label of the machine
 	case *girc.ErrEvent:
 		return "Re" + e.Error()
 	case girc.ErrParseEvent, *girc.ErrParseEvent:
@@ -221,9 +230,11 @@ type lcConn struct {
 	regDone     chan struct{}
 	eofCh       chan struct{}
 	readerEnd   chan struct{}
+	retCh       chan struct{} // closed when MockConnect has returned
 	paused      atomic.Bool
 	resume      chan struct{}
 	peerShut    atomic.Bool // the peer closed its own end
+	panicked    atomic.Bool // Connect panicked: never call into the client again
 	selfClosing atomic.Bool // the peer is about to close its own end (answering a QUIT)
 	sawEOF      atomic.Bool
 
@@ -242,6 +253,19 @@ func (cn *lcConn) problem(format string, a ...interface{}) {
 	cn.mu.Lock()
 	cn.problems = append(cn.problems, fmt.Sprintf(format, a...))
 	cn.mu.Unlock()
+}
+
+// waitStep waits for ch; an early return of Connect ends the wait as well (the remaining
+// steps of the scenario are then no-ops or fail fast).
+func (cn *lcConn) waitStep(ch <-chan struct{}) bool {
+	select {
+	case <-ch:
+		return true
+	case <-cn.retCh:
+		return true
+	case <-time.After(lcStepBound):
+		return false
+	}
 }
 
 func lcWaitCh(ch <-chan struct{}, d time.Duration) bool {
@@ -319,6 +343,11 @@ func (cn *lcConn) waitDelivered(n int) bool {
 		if time.Now().After(deadline) {
 			return false
 		}
+		select {
+		case <-cn.retCh:
+			return false // the connection is over: nothing more will be delivered
+		default:
+		}
 		// cond.Wait without timeout could hang when the connection ends early: poll.
 		cn.mu.Unlock()
 		time.Sleep(200 * time.Microsecond)
@@ -384,6 +413,9 @@ func (cn *lcConn) reader() {
 // peerLines logs and writes lines in one Write: "id" is an ordinary event carrying id,
 // "!text" an ERROR, "?" an unparsable line.
 func (cn *lcConn) peerLines(items []string) {
+	if cn.panicked.Load() {
+		return
+	}
 	var sb strings.Builder
 	for _, it := range items {
 		switch {
@@ -426,6 +458,9 @@ func (cn *lcConn) peerClose() {
 func (cn *lcConn) id(i int) string { return fmt.Sprintf("%s%02d", cn.letter, i) }
 
 func (cn *lcConn) appSend(i int) {
+	if cn.panicked.Load() {
+		return
+	}
 	id := cn.id(50 + i)
 	cn.log.add("s" + id)
 	cn.c.Cmd.Message("#out", id)
@@ -436,6 +471,9 @@ func (cn *lcConn) appSend(i int) {
 // write (what follows an ERROR must never reach the next connection); for the others pre is
 // written first.
 func (cn *lcConn) stimulus(pre, extra []string) {
+	if cn.panicked.Load() {
+		return
+	}
 	join := func(mid string) []string {
 		l := append([]string(nil), pre...)
 		l = append(l, mid)
@@ -503,6 +541,7 @@ func (cn *lcConn) run(cur *atomic.Value) lcConnResult {
 	cn.regDone = make(chan struct{})
 	cn.eofCh = make(chan struct{})
 	cn.readerEnd = make(chan struct{})
+	cn.retCh = make(chan struct{})
 	cn.resume = make(chan struct{})
 	cn.regs = lcRegs(cn.c.Config)
 	if sp.place == "slow" {
@@ -516,9 +555,17 @@ func (cn *lcConn) run(cur *atomic.Value) lcConnResult {
 	go cn.reader()
 	done := make(chan error, 1)
 	go func() {
-		err := cn.c.MockConnect(out)
-		cn.log.add(lcRetToken(err))
-		done <- err
+		var err error
+		defer func() {
+			if r := recover(); r != nil {
+				err = lcPanic{fmt.Sprint(r)}
+				cn.panicked.Store(true)
+			}
+			cn.log.add(lcRetToken(err))
+			close(cn.retCh)
+			done <- err
+		}()
+		err = cn.c.MockConnect(out)
 	}()
 
 	burst := func(from, to int) []string {
@@ -532,12 +579,12 @@ func (cn *lcConn) run(cur *atomic.Value) lcConnResult {
 
 	switch sp.place {
 	case "reg":
-		if !lcWaitCh(cn.firstLine, lcStepBound) {
+		if !cn.waitStep(cn.firstLine) {
 			cn.problem("harness-timeout: no registration line")
 		}
 		cn.stimulus(nil, nil)
 	case "after001":
-		if !lcWaitCh(cn.regDone, lcStepBound) {
+		if !cn.waitStep(cn.regDone) {
 			cn.problem("harness-timeout: registration incomplete")
 		}
 		cn.peerLines([]string{"W" + cn.id(0), "J" + cn.id(1)})
@@ -546,7 +593,7 @@ func (cn *lcConn) run(cur *atomic.Value) lcConnResult {
 		}
 		cn.stimulus(nil, nil)
 	case "burst":
-		if !lcWaitCh(cn.regDone, lcStepBound) {
+		if !cn.waitStep(cn.regDone) {
 			cn.problem("harness-timeout: registration incomplete")
 		}
 		if !appKind {
@@ -564,14 +611,14 @@ func (cn *lcConn) run(cur *atomic.Value) lcConnResult {
 			lcWaitCh(stim, 2*lcStepBound)
 		}
 	case "slow":
-		if !lcWaitCh(cn.regDone, lcStepBound) {
+		if !cn.waitStep(cn.regDone) {
 			cn.problem("harness-timeout: registration incomplete")
 		}
 		if sp.k < 1 || sp.n < sp.k {
 			cn.problem("harness-timeout: bad slow spec")
 		}
 		cn.peerLines(burst(1, sp.n))
-		if !lcWaitCh(cn.inHandler, lcStepBound) {
+		if !cn.waitStep(cn.inHandler) {
 			cn.problem("harness-timeout: slow handler not entered")
 		}
 		stim := make(chan struct{})
@@ -598,7 +645,7 @@ func (cn *lcConn) run(cur *atomic.Value) lcConnResult {
 			cn.problem("harness-timeout: stimulus did not complete")
 		}
 	case "txq":
-		if !lcWaitCh(cn.regDone, lcStepBound) {
+		if !cn.waitStep(cn.regDone) {
 			cn.problem("harness-timeout: registration incomplete")
 		}
 		cn.paused.Store(true)
@@ -639,6 +686,15 @@ func (cn *lcConn) run(cur *atomic.Value) lcConnResult {
 		close(cn.release)
 	}
 	res.class = lcClass(res.err)
+	if res.class == "panic" {
+		// Connect panicked (possibly holding the client's mutex): do not call into the
+		// client again
+		cn.peerShut.Store(true)
+		cn.in.Close()
+		cn.resumeReader()
+		res.eof = true
+		return res
+	}
 	res.isConn = cn.c.IsConnected()
 	if res.isConn {
 		cn.log.add("cT")
@@ -798,6 +854,10 @@ func lcCheckConn(cn *lcConn, res lcConnResult, first *lcConn) []string {
 	}
 	cn.mu.Lock()
 	defer cn.mu.Unlock()
+	if res.class == "panic" {
+		add("panic", "%v", res.err)
+		return bad
+	}
 	for _, p := range cn.problems {
 		bad = append(bad, p+" (conn "+cn.letter+" "+cn.sp.String()+")")
 	}
@@ -932,7 +992,7 @@ func lcRunSession(specs []lcSpec) Result {
 		if first == nil {
 			first = cn
 		}
-		if !res.returned {
+		if !res.returned || res.class == "panic" {
 			break
 		}
 	}
